@@ -118,13 +118,13 @@ def snapshot():
                             snap["%s.%s.%s" % (name, k, ck)] = func_state(cv)
                         elif not isinstance(cv, property):
                             snap["%s.%s.%s" % (name, k, ck)] = deep(cv)
-                    snap["%s.%s.<attrs>" % (name, k)] = tuple(sorted(vars(v)))
+                    snap["%s.%s.<attrs>" % (name, k)] = tuple(sorted(x for x in vars(v) if not x.startswith("_") or x.startswith("__")))
                 continue
             if callable(v):
                 snap["%s.%s" % (name, k)] = ("callable", getattr(v, "__module__", None), getattr(v, "__name__", None)) + func_state(v)
                 continue
             snap["%s.%s" % (name, k)] = deep(v)
-        snap["%s.<names>" % name] = tuple(sorted(k for k in vars(mod) if not k.startswith("__")))
+        snap["%s.<names>" % name] = tuple(sorted(k for k in vars(mod) if not k.startswith("_")))
     c = decimal.getcontext()
     snap["decimal.context"] = (c.prec, c.rounding, c.Emin, c.Emax, c.capitals, c.clamp,
                                tuple(sorted(str(k) for k, v in c.traps.items() if v)))
@@ -134,8 +134,22 @@ def snapshot():
     return snap
 
 
-def snap_diff(a, b):
-    return sorted(k for k in set(a) | set(b) if a.get(k) != b.get(k))
+def is_private(key):
+    """cvss.mod._name / cvss.mod.Class._name: implementation detail (e.g. a memo), not one of the library's constant tables"""
+    parts = key.split(".")
+    return any(p.startswith("_") and not p.startswith("__") for p in parts[1:]) and not key.endswith("<names>") and not key.endswith("<attrs>")
+
+
+def snap_diff(a, b, private=False):
+    """
+    keys whose value changed.  Changes of PRIVATE module-level names (leading underscore) are not reported here: a
+    memo that does not change any result is not a violation of the statement (its effects, if any, are what the probe,
+    batch and schedule comparisons look for); everything public - the constant tables - and the ambient state is.
+    """
+    d = sorted(k for k in set(a) | set(b) if a.get(k) != b.get(k))
+    if private:
+        return [k for k in d if is_private(k)]
+    return [k for k in d if not is_private(k)]
 
 
 def warm_up():
@@ -204,9 +218,10 @@ def check_schedule(inp):
     import os
     items, schedule = inp["jobs"], inp["schedule"]
     warm_up()
-    seq = [local_eval(it) for it in items]
+    # threads FIRST (first use of whatever the jobs touch happens under the schedule), sequential reference afterwards
     S = sched.Sched([job_fn(it) for it in items], schedule, os.path.dirname(os.path.abspath(cvss.__file__)), inp.get("tail_quantum"))
     res = S.run()
+    seq = [local_eval(it) for it in items]
     fails = []
     for it, a, b in zip(items, seq, res):
         if _norm(b) != a:
@@ -313,7 +328,7 @@ def history_part(n_examples, shard, steps, baseline):
     import hypothesis.errors as he
     part = runner.Part(PID)
     warm_up()
-    snap0 = snapshot()
+    snap = [snapshot()]
     recorded = []       # (history so far, item, local result) for the batch comparison
 
     class Machine(RuleBasedStateMachine):
@@ -347,9 +362,22 @@ def history_part(n_examples, shard, steps, baseline):
                 g, _ = quiet_eval(it)
                 if g != w:
                     self._fail(w, g, "fixed probe %s differs from the fresh process after the history" % json.dumps(it)[:120])
-            d = snap_diff(snap0, snapshot())
+            now = snapshot()
+            dp = snap_diff(snap[0], now, private=True)
+            if dp:
+                part.classes["private-module-state-changed (not a violation by itself)"] += 1
+                if len(part.notes) < 5:
+                    part.notes.append("private module-level state changed: %s" % dp[:4])
+            d = snap_diff(snap[0], now)
+            if d or dp:
+                snap[0] = now
             if d:
-                self._fail("process-global state unchanged", d[:8], "after %s" % json.dumps(self.ops[-1])[:160])
+                # a change of global state is sticky: record it directly (outside Hypothesis' replay/shrink cycle, which
+                # could never reproduce it inside this process) and continue from the new state
+                if len(part.violations) < 5:
+                    part.add_failures("history", {"ops": list(self.ops), "probe": []},
+                                      [failure("process-global state unchanged", d[:8], note="after %s" % json.dumps(self.ops[-1])[:160])])
+                snap[0] = now
 
         def teardown(self):
             if not self.ops:
@@ -404,11 +432,16 @@ def schedule_part(n_examples, shard):
     def case(draw):
         n = draw(st.integers(2, 4))
         jobs = []
-        for _ in range(n):
-            kind, item = draw(op_strategy().filter(lambda o: o[1][0] in ("ctor", "rh", "text")))
-            jobs.append(item)
-        schedule = draw(st.lists(st.tuples(st.integers(0, n - 1), st.integers(1, 60)), min_size=5, max_size=80))
-        tail = draw(st.sampled_from((None, 3, 7, 19, 53, 211)))
+        api = op_strategy().filter(lambda o: o[1][0] in ("ctor", "rh", "text"))
+        mode = draw(st.sampled_from(("independent", "same-item", "same-item", "mixed")))
+        first = draw(api)[1]
+        for i in range(n):
+            if mode == "same-item" or (mode == "mixed" and i < 2):
+                jobs.append(first)       # several threads build the very same thing: check-then-act races on first use
+            else:
+                jobs.append(draw(api)[1])
+        schedule = draw(st.lists(st.tuples(st.integers(0, n - 1), st.integers(1, 60)), min_size=0, max_size=60))
+        tail = draw(st.sampled_from((None, 1, 2, 3, 5, 7, 19, 53, 211)))
         return jobs, [list(x) for x in schedule], tail
 
     @runner.seeded(19, 1000 + shard)
@@ -417,16 +450,23 @@ def schedule_part(n_examples, shard):
     def t(c):
         jobs, schedule, tail = c
         inp = {"jobs": jobs, "schedule": schedule, "tail_quantum": tail}
-        seq = [local_eval(it) for it in jobs]
         S = sched.Sched([job_fn(it) for it in jobs], schedule, target, tail)
-        res = S.run()
+        res = S.run()                              # threads first: first-use effects happen under the schedule
+        seq = [local_eval(it) for it in jobs]      # sequential reference afterwards
         part.count(inp, nontrivial=S.switches >= 3,
-                   classes=("schedule", "threads=%d" % len(jobs), "switches>=10" if S.switches >= 10 else "switches<10"))
+                   classes=("schedule", "threads=%d" % len(jobs), "switches>=10" if S.switches >= 10 else "switches<10",
+                            "same-job-in-several-threads" if len(set(json.dumps(j) for j in jobs)) < len(jobs) else "distinct-jobs"))
         part.extra["switches"] = part.extra.get("switches", 0) + S.switches
         part.extra["line_events"] = part.extra.get("line_events", 0) + S.events
-        for it, a, b in zip(jobs, seq, res):
-            if _norm(b) != a:
-                raise runner.Falsified("schedule", inp, [failure(a, _norm(b), note="thread running %s" % json.dumps(it)[:160])])
+        fails = [failure(a, _norm(b), note="thread running %s" % json.dumps(it)[:160]) for it, a, b in zip(jobs, seq, res) if _norm(b) != a]
+        if fails:
+            if check_schedule(dict(inp)):
+                raise runner.Falsified("schedule", inp, fails)        # reproducible inside this process: let Hypothesis shrink it
+            # happens only on FIRST use inside a process (the replay command runs in a fresh process): record it as it is
+            if len(part.violations) < 5:
+                for f in fails:
+                    f["note"] += " (only on first use in a process: not shrunk)"
+                part.add_failures("schedule", inp, fails)
     runner.run_hyp(part, t, "C19.schedule")
     return part
 
@@ -509,10 +549,29 @@ def decimal_part(idx, n_env, seed):
     part.nontrivial_count += len(vectors)
     part.check("decimal", check_decimal, {"prec": prec, "rounding": rounding, "vectors": vectors})
     if part.violations:
-        # shrink the replay to the failing vectors only
-        for v in part.violations:
-            bad = [x for x in vectors if check_decimal({"prec": prec, "rounding": rounding, "vectors": [x]})]
-            v["input"] = {"prec": prec, "rounding": rounding, "vectors": bad[:1] or vectors[:1]}
+        # shrink the replay.  This worker process may carry state from earlier cases, so every candidate is judged in a
+        # FRESH process: first a vector that fails on its own, else a minimal failing sub-sequence (history dependent)
+        mk = lambda sub: {"prec": prec, "rounding": rounding, "vectors": sub}
+        bad_here = [x for x in vectors if check_decimal(mk([x]))][:3]
+        small = None
+        for x in bad_here:
+            if runner.fresh_fails(PID, "decimal", mk([x])):
+                small = [x]
+                break
+        note = None
+        if small is None:
+            if runner.fresh_fails(PID, "decimal", mk(vectors)):
+                small = runner.ddmin(vectors, lambda sub: runner.fresh_fails(PID, "decimal", mk(sub)), budget=40)
+                note = "history dependent: fails only after the earlier vectors of the list"
+            else:
+                small = vectors
+                note = "seen only inside a long-lived worker process; the full list does not reproduce it in a fresh process"
+        fails = check_decimal(mk(small)) or [failure("scores equal to the oracle", "mismatch (see note)")]
+        for f in fails:
+            if note:
+                f["note"] = (f.get("note") or "") + " [" + note + "]"
+        part.violations = []
+        part.add_failures("decimal", mk(small), fails[:2])
     return part
 
 
@@ -578,7 +637,7 @@ def run(tier, t0):
                           "schedules are explored at line granularity in frames of cvss/*.py; interleavings inside one line are left to the free-running stress",
                           "lazy imports of the standard library are triggered by a warm-up before the first snapshot"],
                          required=("history", "op:ctor-valid", "op:ctor-invalid", "op:rh-mismatch", "op:text", "op:interactive", "op:cli",
-                                   "batch-compared", "ambient-in-fresh-process", "schedule", "switches>=10", "free-running-stress", "hashseed", "decimal", "prec=28", "prec=200"),
+                                   "batch-compared", "ambient-in-fresh-process", "schedule", "switches>=10", "same-job-in-several-threads", "distinct-jobs", "free-running-stress", "hashseed", "decimal", "prec=28", "prec=200"),
                          extra={"forced_thread_switches": part.extra.get("switches", 0), "traced_line_events": part.extra.get("line_events", 0)})
 
 
